@@ -375,6 +375,165 @@ def rule_holes(ctx):
         ctx.note("%s constructed in: %s" % (name, sorted(sites)))
 
 
+def _parents(root):
+    par = {}
+    stack = [root]
+    while stack:
+        n = stack.pop()
+        for c in H.children(n):
+            if isinstance(c, dict):
+                par[id(c)] = n
+                stack.append(c)
+    return par
+
+
+def rule_branch_join(ctx):
+    """a former that synthesises ONE type from several branches joins ALL the branch types"""
+    rule = "branch-join"
+    facts = ctx.facts
+    ctx.rule(rule, "in the checker (zydeco_statics::check), every vector that collects one synthesised type per branch (pushed once per "
+                   "arm in a loop) is consumed whole through Lub::lub_k: its first element seeds an accumulator and a loop / fold over "
+                   "ALL remaining elements replaces the accumulator by lub_k(accumulator, element); no element is read by index, "
+                   "`first()`, or `next()` alone. Otherwise a match whose arms have different types is accepted in synthesis mode")
+    n = 0
+    for fn, bd in sorted(facts.bodies().items()):
+        if not (fn.startswith("zydeco_statics::check::") or "as zydeco_statics::check::" in fn) or "{closure" in fn:
+            continue
+        h = facts.hir(fn)
+        if not h:
+            continue
+        vecs = {}
+        for c in H.walk(h["body"]):
+            if H.kind(c) == "MethodCall" and c["name"] == "push" and re.search(r"Vec<zydeco_statics::syntax::TypeId>", c.get("recv_ty") or ""):
+                l = H.path_local(c["recv"])
+                if l:
+                    vecs.setdefault(l[0], l[1])
+        if not vecs:
+            continue
+        par = _parents(h["body"])
+        # only vectors filled once per branch: a push inside a `for` over the arms
+        for v, vname in sorted(vecs.items()):
+            pushes_in_loop = False
+            for c in H.walk(h["body"]):
+                if H.kind(c) == "Match" and H.is_for(c):
+                    _, it, body = H.for_parts(c)
+                    if body is not None and re.search(r"Matcher<|CoMatcher<|arms", (it.get("ty") or "") + A.sexpr(it, None)) and any(
+                            H.kind(x) == "MethodCall" and x["name"] == "push" and (H.path_local(x["recv"]) or [None])[0] == v for x in H.walk(body)):
+                        pushes_in_loop = True
+            if not pushes_in_loop:
+                continue
+            n += 1
+            inst = "%s:%s" % (M.short_fn(fn) if hasattr(M, "short_fn") else fn.split("::")[-1], "branch-types")
+            loc = [bd["loc"][0], bd["loc"][1]]
+            bad = []
+            joined = False
+            for u in H.walk(h["body"]):
+                if H.kind(u) != "Path" or (H.path_local(u) or [None])[0] != v:
+                    continue
+                p = par.get(id(u))
+                while p is not None and H.kind(p) in ("AddrOf", "Use", "Type", "DropTemps"):
+                    u, p = p, par.get(id(p))
+                if H.kind(p) == "MethodCall" and p.get("recv") is u and p["name"] in ("push", "is_empty", "len"):
+                    continue
+                if H.kind(p) == "MethodCall" and p.get("recv") is u and p["name"] in ("into_iter", "iter", "drain"):
+                    ok, why = _joined_iterator(h, par, p)
+                    joined = joined or ok
+                    if not ok:
+                        bad.append(why)
+                    continue
+                if H.kind(p) == "Match" and H.is_for(p):
+                    ok, why = _lub_loop(h, par, p, None)
+                    joined = joined or ok
+                    if not ok:
+                        bad.append(why)
+                    continue
+                bad.append("`%s` is read by %s at line %s" % (vname, H.kind(p) + (":" + p.get("name", "") if H.kind(p) == "MethodCall" else ""), u.get("ln") or p.get("ln")))
+            ctx.check(joined and not bad, rule, inst,
+                      "%s: the per-arm types collected in `%s` are not all joined by Lub::lub_k (%s): arms of different types are "
+                      "accepted when the match is checked in synthesis mode, and the run-time value has the type of the arm that "
+                      "ran" % (fn, vname, "; ".join(bad) or "no join found"), loc, detail={"vector": vname, "joined": joined})
+    ctx.floor(rule, "per-branch type vectors", n, 1)
+
+
+def _uses_lub(node, a_local, b_local):
+    for c in H.walk(node):
+        if H.kind(c) in ("Call", "MethodCall") and re.search(r"Lub>::lub_k$|Lub::lub_k$|Lub>::lub$|Lub::lub$", H.callee(c) or ""):
+            ls = set((H.path_local(x) or [None])[0] for a in H.call_args(c) for x in H.walk(a) if H.kind(x) == "Path")
+            if a_local in ls and (b_local is None or b_local in ls):
+                return True
+    return False
+
+
+def _lub_loop(h, par, loop, acc):
+    """`for x in IT { acc = lub_k(acc, x)? }`"""
+    pat, it, body = H.for_parts(loop)
+    xs = [b["local"] for b in H.pat_bindings(pat)] if pat is not None else []
+    if body is None or len(xs) != 1:
+        return False, "loop over the arm types does not bind one element"
+    for c in H.walk(body):
+        if H.kind(c) == "Assign":
+            l = H.path_local(c["l"])
+            if l and (acc is None or l[0] == acc) and _uses_lub(c["r"], xs[0], l[0]):
+                return True, ""
+    return False, "the loop over the arm types does not replace the accumulator by lub_k(accumulator, element)"
+
+
+def _joined_iterator(h, par, it_call):
+    """the iterator made from the vector: first element seeds R, and a loop / fold over the rest joins into R"""
+    p = par.get(id(it_call))
+    while p is not None and H.kind(p) in ("AddrOf", "Use", "Type", "DropTemps"):
+        it_call, p = p, par.get(id(p))
+    # direct fold / try_fold / reduce on the iterator
+    if H.kind(p) == "MethodCall" and p.get("recv") is it_call and p["name"] in ("fold", "try_fold", "reduce", "try_reduce"):
+        clo = [H.peel(a) for a in p["args"] if H.kind(H.peel(a)) == "Closure"]
+        if clo:
+            ps = [b["local"] for q in clo[0]["params"] for b in H.pat_bindings(q)]
+            if len(ps) >= 2 and _uses_lub(clo[0]["body"], ps[0], ps[1]):
+                return True, ""
+        return False, "the fold over the arm types does not apply lub_k to accumulator and element"
+    if H.kind(p) == "Match" and H.is_for(p):
+        return _lub_loop(h, par, p, None)
+    if H.kind(p) != "Let":
+        return False, "the iterator over the arm types is consumed by %s" % H.kind(p)
+    its = [b["local"] for b in H.pat_bindings(p["pat"])]
+    if len(its) != 1:
+        return False, "iterator binding not understood"
+    itl = its[0]
+    seed = None
+    looped = False
+    why = "no loop over the remaining arm types"
+    for u in H.walk(h["body"]):
+        if H.kind(u) != "Path" or (H.path_local(u) or [None])[0] != itl:
+            continue
+        q = par.get(id(u))
+        while q is not None and H.kind(q) in ("AddrOf", "Use", "Type", "DropTemps"):
+            u, q = q, par.get(id(q))
+        if H.kind(q) == "MethodCall" and q.get("recv") is u and q["name"] == "next":
+            # let mut R = it.next().unwrap()
+            r = q
+            while r is not None and H.kind(r) != "Let":
+                r = par.get(id(r))
+            if r is not None:
+                bs = [b["local"] for b in H.pat_bindings(r["pat"])]
+                seed = bs[0] if len(bs) == 1 else None
+            continue
+        if H.kind(q) == "Match" and H.is_for(q) or (H.kind(q) == "Call" and H.is_for(par.get(id(q)) or {})):
+            loop = q if H.kind(q) == "Match" else par.get(id(q))
+            ok, w = _lub_loop(h, par, loop, seed)
+            looped = looped or ok
+            why = w or why
+            continue
+        if H.kind(q) == "MethodCall" and q.get("recv") is u and q["name"] in ("fold", "try_fold"):
+            clo = [H.peel(a) for a in q["args"] if H.kind(H.peel(a)) == "Closure"]
+            ps = [b["local"] for c in clo[:1] for x in c["params"] for b in H.pat_bindings(x)]
+            if len(ps) >= 2 and _uses_lub(clo[0]["body"], ps[0], ps[1]):
+                looped = True
+            continue
+    if seed is None and not looped:
+        return False, "only the iterator is taken; no element is joined"
+    return looped, ("" if looped else "the first arm type is taken but %s" % why)
+
+
 def rule_judgments(ctx):
     """every sub-term / sub-pattern of every former is handed to a checking judgment (R-TRAV on the checker itself)"""
     from .. import trav
@@ -457,6 +616,17 @@ def run(ctx):
     rule_holes(ctx)
     rule_judgments(ctx)
     rule_expected_type(ctx)
+    rule_branch_join(ctx)
+    from . import c04
+    from .. import golden
+    ctx.rule("coverage-validator", "the validator that makes `no matching arm` and `pattern match failed` unreachable performs its audited "
+                                   "steps: every computation and value is visited, match / comatch / every other binder is validated, "
+                                   "missing destructors are declared minus supplied (rules/golden_coverage.json, shared with C04)")
+    golden.check(ctx, "coverage-validator", "golden_coverage.json",
+                 only={"CoverageChecker::validate", "CoverageChecker::validate_computation", "CoverageChecker::validate_value",
+                       "CoverageChecker::validate_binder", "CoverageChecker::validate_match", "CoverageChecker::validate_comatch",
+                       "CoverageChecker::validate_pattern_matrix", "CoverageChecker::missing_patterns"})
+    c04.rule_binder_coverage(ctx)
     ctx.assume("the typing rules themselves (progress/preservation), the coverage algorithm (C04) and termination of "
                "normalisation are NOT decided")
     ctx.assume("ResultKont errors are already recorded in Tycker::errors (append-only, checked), so dropping a ResultKont cannot "
